@@ -260,3 +260,42 @@ SPECS["C12"] = {
                       "rejected calls and stale output files; brute-force reference per call"),
     },
 }
+
+SPECS["C15"] = {
+    "parts": [
+        {"engine": "recsim", "mode": "", "quick": 6000, "thorough": 600000},
+        {"engine": "htmsim", "mode": "", "quick": 1200, "thorough": 60000},
+        {"engine": "wcssim", "mode": "", "quick": 1200, "thorough": 60000},
+        {"engine": "rngsim", "mode": "", "quick": 6000, "thorough": 500000},
+        {"engine": "quadsim", "mode": "", "quick": 6000, "thorough": 500000},
+    ],
+    "cap_quick": 60, "cap_thorough": 1200,
+    "rule": ("the workloads of the other engines (record-file writers binary/text through every entry point and through "
+             "appends, Matcher construction and matching, WCS conversions, tabulated densities/covariances/means of the "
+             "samplers, tabulated quadrature data) with the PRESENTATION of every array argument drawn per call: fresh "
+             "contiguous copy, the other declared byte order, strided or offset view into a larger buffer whose gaps hold "
+             "canaries, float32/integer where conversion is documented; after every call the whole base buffer, dtype, "
+             "strides and flags are compared with the snapshot taken before. Only this oracle is enabled. Non-trivial = a "
+             "guarded call was made; distinct = distinct event-log digests among those"),
+    "state_measure": "union of the abstract states/transitions of the contributing engines (prefixed by engine name)",
+    "real": ["esutil.sfile/recfile/io writers", "esutil.htm Matcher", "esutil.wcsutil.WCS", "esutil.random samplers",
+             "esutil.integrate (tabulated data)"],
+    "stub": ["random source of the samplers (SimRNG)"],
+    "expect_reach": [],
+    "assumptions": ["RESTRICTED SCOPE: only call sites reached inside simulated workloads are watched; the pure families "
+                    "listed in the statement (field operations, byte-order helpers, match/unique, histograms, statistics, "
+                    "coordinates, cosmology, HTM lookup/pair counting) have no history, schedule or fault for a simulator to "
+                    "vary and are NOT explored",
+                    "results of writes from strided presentations are not judged (layout is outside C01-C04's quantifiers)"],
+    "manifest": {
+        "design_ref": "3.7",
+        "level_text": ("restricted claim: a byte/dtype/stride/flag snapshot monitor on every array handed to esutil inside the "
+                       "simulated workloads of the other engines, with the argument's presentation (byte order, strides, "
+                       "element type) drawn per call. Sampling; the pure call sites named by the property are not explored."),
+        "level_note": ("covers writers (binary/text, create/append/handle), htm Matcher/match, WCS image2sky/sky2image/"
+                       "get_jacobian, samplers, quadrature data; does not cover numpy_util, stat, coords, cosmology, HTM "
+                       "lookup/bincount call sites"),
+        "technique": ("deterministic simulation workloads reused as carriers for a caller-owned-memory monitor (snapshot "
+                      "before/after each call, canary gaps)"),
+    },
+}
